@@ -32,6 +32,7 @@ PROPS = {
     "C06": "harness.corr_sched",
     "C07": "harness.corr_channel",
     "C12": "harness.corr_c12",
+    "C14": "harness.corr_discovery",
     "C15": "harness.corr_bytecode",
     "C13": "harness.corr_c13",
     "C16": "harness.corr_c16",
